@@ -61,7 +61,7 @@ def parse_emitted(out):
     return res
 
 
-def cfg_text(constants=None, spec=None, init="Init", next_="Next", invariants=(), properties=(),
+def cfg_text(constants=None, defs=None, spec=None, init="Init", next_="Next", invariants=(), properties=(),
              constraints=(), action_constraints=(), view=None, postcondition=None,
              check_deadlock=False, symmetry=None):
     """Render a TLC configuration.  constants: dict name -> TLA+ literal text."""
@@ -71,10 +71,12 @@ def cfg_text(constants=None, spec=None, init="Init", next_="Next", invariants=()
     else:
         lines.append(f"INIT {init}")
         lines.append(f"NEXT {next_}")
-    if constants:
+    if constants or defs:
         lines.append("CONSTANTS")
-        for k, v in constants.items():
+        for k, v in (constants or {}).items():
             lines.append(f"  {k} = {v}")
+        for k in (defs or {}):
+            lines.append(f"  {k} <- def_{k}")
     for i in invariants:
         lines.append(f"INVARIANT {i}")
     for p in properties:
@@ -110,7 +112,7 @@ def tla(v):
     raise TypeError(f"no TLA+ literal for {type(v)}")
 
 
-def run(module_path, cfg, workers=1, coverage=False, env=None, timeout=3600, heap="4g",
+def run(module_path, cfg, defs=None, workers=1, coverage=False, env=None, timeout=3600, heap="4g",
         simulate=None, depth=None, seed=None, keep=False, continue_=False, extra=()):
     """Run TLC.  module_path relative to /verif/spec.  Returns TlcResult.
 
@@ -141,7 +143,19 @@ def run(module_path, cfg, workers=1, coverage=False, env=None, timeout=3600, hea
         if seed is not None:
             cmd += ["-seed", str(seed)]
         cmd += list(extra)
-        cmd.append(mod_abs)
+        if defs:
+            # constants that a cfg file cannot express (records, tuples, rationals) are supplied as
+            # definitions of a generated root module extending the specification
+            base = os.path.splitext(os.path.basename(mod_abs))[0]
+            root = os.path.join(wd, "MCrun.tla")
+            with open(root, "w") as f:
+                f.write("---- MODULE MCrun ----\nEXTENDS " + base + "\n")
+                for k, v in defs.items():
+                    f.write(f"def_{k} == {v}\n")
+                f.write("====\n")
+            cmd.append(root)
+        else:
+            cmd.append(mod_abs)
         e = dict(os.environ)
         e.pop("JAVA_TOOL_OPTIONS", None)
         if env:
